@@ -4,6 +4,9 @@ import Mathlib.Tactic.Ring
 import Mathlib.Tactic.FieldSimp
 import Mathlib.Algebra.Field.Basic
 import Mathlib.Algebra.BigOperators.Group.List.Basic
+import Mathlib.Analysis.SpecialFunctions.Exp
+import Mathlib.Analysis.Complex.Trigonometric
+import Mathlib.Analysis.SpecialFunctions.Complex.Circle
 
 /-! Helper lemmas for C14 (round 5): the ceiling division behind `len(range(...))`, sums over
 indicator vectors (segments of a segmented mirror), formal phases. -/
@@ -80,5 +83,25 @@ theorem power_applyPhase (nsq : K → K) (e : List (PVal K)) (d : List K) (h : e
       have := ih ts (by simpa using h)
       simp only [applyPhase, List.zipWith_cons_cons, List.map_cons] at this ⊢
       rw [this]
+
+/-! #### what a formal field value stands for -/
+
+/-- `E · exp(2πi·c)`: the complex number a formal field value `(E, c)` denotes -/
+noncomputable def PVal.den (x : PVal ℂ) : ℂ :=
+  x.amp * Complex.exp (2 * Real.pi * x.turns * Complex.I)
+
+theorem den_add (amp c d : ℂ) :
+    PVal.den ⟨amp, c + d⟩ = PVal.den ⟨amp, c⟩ * Complex.exp (2 * Real.pi * d * Complex.I) := by
+  unfold PVal.den
+  rw [mul_assoc amp, ← Complex.exp_add]
+  congr 2
+  ring
+
+theorem norm_den (amp : ℂ) (c : ℝ) : ‖PVal.den ⟨amp, (c : ℂ)⟩‖ = ‖amp‖ := by
+  unfold PVal.den
+  rw [norm_mul]
+  have : (2 * (Real.pi : ℂ) * (c : ℂ) * Complex.I) = ((2 * Real.pi * c : ℝ) : ℂ) * Complex.I := by
+    push_cast; ring
+  rw [this, Complex.norm_exp_ofReal_mul_I, mul_one]
 
 end HcipyVerif.Mirror
